@@ -61,7 +61,8 @@ def gen_case(rng):
         t_end = t1 + int(L * SEC)
     else:
         d = rng.choice([0, 0.3, 1, 7])
-        faults = [{'t': t1, 'kind': 'kill', 'node': victim}, {'t': t1 + int(d * SEC) + 1000, 'kind': 'restart', 'node': victim}]
+        # 'kill' = process death (nothing is said), 'stop' = orderly shut-down (CLOSE reaches the peers) before the restart
+        faults = [{'t': t1, 'kind': rng.choice(['kill', 'stop']), 'node': victim}, {'t': t1 + int(d * SEC) + 1000, 'kind': 'restart', 'node': victim}]
         t_end = t1 + int(d * SEC) + 1000
     return {'topo': topo, 'faults': faults, 'kind': kind, 'victim': victim, 't_end': t_end, 'net_seed': rng.randrange(10**9)}
 
